@@ -249,6 +249,44 @@ def arrpoly_fails(case):
     return None
 
 
+# ---- nested seeds (forward over forward): the seed point is a vector of Taylor polynomials x_i + t v_i -------------
+def nested_case(rng, tier):
+    N = rng.randint(2, 5)
+    return {'op': 'nested', 'N': N, 'c': rng.randint(-3, 3), 'x': [rng.randint(-4, 4) for _ in range(N)],
+            'v': [rng.randint(-3, 3) for _ in range(N)]}
+
+
+def nested_fails(case):
+    """F_i = x_i x_{i+1} + c x_i^2 (i < N-1), R^N -> R^(N-1); with nested seeds the extracted Jacobian is the Taylor
+    polynomial J(x) + t dJ/dt, and J is linear in x, so dJ/dt along v is J(v)"""
+    N, c = case['N'], case['c']
+    x, v = np.array(case['x'], dtype=float), np.array(case['v'], dtype=float)
+
+    def Fm(X):
+        return X[:N - 1] * X[1:] + c * X[:N - 1] * X[:N - 1]
+
+    def Jex(z):
+        J = np.zeros((N - 1, N))
+        for i in range(N - 1):
+            J[i, i] = z[i + 1] + 2 * c * z[i]
+            J[i, i + 1] = z[i]
+        return J
+    try:
+        Jp = UTPM.extract_jacobian(Fm(UTPM.init_jacobian(x)))
+        inner = UTPM.init_jac_vec(x, v)
+        xs = np.array([inner[i] for i in range(N)], dtype=object)
+        Jn = UTPM.extract_jacobian(Fm(UTPM.init_jacobian(xs)))
+    except Exception as ex:
+        return 'nested-exception: %s' % (type(ex).__name__ + ':' + str(ex)[:100])
+    if np.shape(Jp) != (N - 1, N) or not np.array_equal(np.asarray(Jp, dtype=float), Jex(x)):
+        return 'nested-plain-jacobian: extract_jacobian differs from the exact Jacobian'
+    if not isinstance(Jn, UTPM) or Jn.data.shape != (2, 1, N - 1, N):
+        return 'nested-shape: extract_jacobian with nested seeds returned %s' % (getattr(getattr(Jn, 'data', None), 'shape', type(Jn).__name__),)
+    if not np.array_equal(Jn.data[0, 0], Jex(x)) or not np.array_equal(Jn.data[1, 0], Jex(v)):
+        return 'nested-jacobian: with nested seeds (x_i + t v_i) the extracted Jacobian is not J(x) + t dJ/dt (exact integer polynomial map)'
+    return None
+
+
 # ---- two tensor computations interleaved: seed A, seed B, extract A, extract B ---------------------------------
 def interleave_case(rng, tier):
     (NA, dA), (NB, dB) = rng.choice([((3, 3), (4, 2)), ((4, 2), (3, 3)), ((2, 3), (4, 1)), ((2, 2), (3, 1)), ((1, 2), (1, 3)),
@@ -289,6 +327,8 @@ def interleave_fails(case):
 def replay_case(ctx, case):
     if case.get('op') == 'interleave':
         return interleave_fails(case)
+    if case.get('op') == 'nested':
+        return nested_fails(case)
     if case.get('op') == 'arrpoly':
         return arrpoly_fails(case)
     if case.get('op') == 'poly':
@@ -321,6 +361,13 @@ def run(ctx):
         if len(ctx.samples) < 2 and case['N'] >= 2:
             ctx.samples.append(case)
         f = poly_fails(case)
+        if f:
+            ctx.report(case, 'failure', f)
+    for i in range(40 if ctx.tier == 'quick' else 400):
+        case = nested_case(rng, ctx.tier)
+        ctx.evaluations += 1
+        ctx.count('nested-seeds')
+        f = nested_fails(case)
         if f:
             ctx.report(case, 'failure', f)
     for i in range(40 if ctx.tier == 'quick' else 400):
